@@ -26,18 +26,20 @@
 (*        over the base tuple, over the tuple with `mut` changed (= the    *)
 (*        data the message carries now) or over the tuple with another     *)
 (*        field changed.                                                   *)
-(*  sim   random sampling of the base domain for larger n (TLC -simulate): *)
-(*        shape "free" draws both lists uniformly step by step, shape      *)
-(*        "near" draws a well-formed signer list and a signature list of   *)
-(*        length t-1..t+1 that is all `listed` except at most one place.   *)
+(*  sample  random sampling of the base domain for larger n (SampleSpec),  *)
+(*        drawn by TLC itself (Randomization, seeded by -seed): shape      *)
+(*        "free" draws both lists uniformly, shape "near" draws a          *)
+(*        well-formed signer list and a signature list of length t-1..t+1  *)
+(*        that is all `listed` except at most one place.                   *)
 (***************************************************************************)
-EXTENDS SigRuleProps, Json, TLC
+EXTENDS SigRuleProps, Json, TLC, Randomization
 
 CONSTANTS
     Flavours,   \* subset of {"gnosis", "service"}
     NSet,       \* keyper set sizes
     TSel,       \* thresholds to include (intersected with 0..n+1)
-    Domain,     \* "base" | "mut" | "sim"
+    Domain,     \* "base" | "mut" (Spec); the sample uses SampleSpec
+    SampleNum,  \* number of draws of SampleSpec
     Emit        \* print the cases?
 
 VARIABLES c, stage, aux
@@ -106,39 +108,32 @@ Next ==
 Spec == Init /\ [][Next]_vars
 
 ----------------------------------------------------------------------------
-(* random sampling (tlc -simulate): one behaviour = one case *)
-NearSigs(s, len) ==
+(* random sampling of the base domain for larger n.  TLC draws the sample itself: every
+   RandomSubset(1, S) below is evaluated once per bound variable, so one evaluation of the body
+   is one consistent case; the generator is seeded by TLC's -seed.  Shape "near" (chosen with
+   probability 1/2 when a well-formed signer list exists) concentrates on the neighbourhood of
+   admissible messages, shape "free" is uniform over lengths and entries. *)
+Pick(S) == RandomSubset(1, S)
+
+NearClassSeqs(f, n, len) ==
     LET allListed == [i \in 1..len |-> Class("listed", "")] IN
-    {ExpandAll(allListed, s.signers, s.n)} \cup
-    {ExpandAll([allListed EXCEPT ![j] = cl], s.signers, s.n) : j \in 1..len, cl \in Classes(s.f, s.n)}
+    {allListed} \cup {[allListed EXCEPT ![j] = cl] : j \in 1..len, cl \in Classes(f, n)}
 
-SimInit ==
-    /\ stage = 0
-    /\ \E n \in NSet : \E t \in Thresholds(n) : \E f \in Flavours : c = Seed(f, n, t, <<>>, "")
-    /\ aux \in {[shape |-> sh, len |-> 0] : sh \in {"free", "near"}}
-
-SimSigners ==
-    /\ stage = 0
-    /\ stage' = 1
-    /\ LET near == aux.shape = "near" /\ GoodLists(c.n, c.t) # {} IN
-       /\ IF near THEN \E s \in GoodLists(c.n, c.t) : c' = [c EXCEPT !.signers = s]
-          ELSE \E m \in 0..(c.n + 1) : \E s \in [1..m -> 0..c.n] : c' = [c EXCEPT !.signers = s]
-       /\ aux' \in {[aux EXCEPT !.len = k] :
-                     k \in IF near THEN {c.t - 1, c.t, c.t + 1} \cap (0..(c.n + 1)) ELSE 0..(c.n + 1)}
-
-SimSigs ==
+SampleInit ==
     /\ stage = 1
-    /\ Len(c.sigs) < aux.len
-    /\ UNCHANGED <<stage, aux>>
-    /\ IF aux.shape = "near" /\ GoodLists(c.n, c.t) # {}
-       THEN c' \in {[c EXCEPT !.sigs = q] : q \in NearSigs(c, aux.len)}
-       ELSE c' \in {[c EXCEPT !.sigs = Append(c.sigs, Expand(cl, c.signers, c.n, Len(c.sigs) + 1))] :
-                       cl \in Classes(c.f, c.n)}
+    /\ aux = NoAux
+    /\ \E k \in 1..SampleNum : \E n \in Pick(NSet) : \E t \in Pick(Thresholds(n)) : \E f \in Pick(Flavours) :
+       \E near \in Pick(IF GoodLists(n, t) = {} THEN {FALSE} ELSE {TRUE, FALSE}) :
+       \E m \in Pick(0..(n + 1)) :
+       \E sg \in Pick(IF near THEN GoodLists(n, t) ELSE [1..m -> 0..n]) :
+       \E len \in Pick(IF near THEN {t - 1, t, t + 1} \cap (0..(n + 1)) ELSE 0..(n + 1)) :
+       \E q \in Pick(IF near THEN NearClassSeqs(f, n, len) ELSE [1..len -> Classes(f, n)]) :
+           c = [Seed(f, n, t, sg, "") EXCEPT !.sigs = ExpandAll(q, sg, n)]
 
-SimSpec == SimInit /\ [][SimSigners \/ SimSigs]_vars
+SampleSpec == SampleInit /\ [][Next]_vars
 
 ----------------------------------------------------------------------------
-Complete == IF Domain = "sim" THEN stage = 1 /\ Len(c.sigs) = aux.len ELSE stage = 1
+Complete == stage = 1
 
 (* the property layer holds on every outcome the code-shaped layer allows *)
 Design == Complete => DesignHolds(c)
